@@ -1,5 +1,56 @@
 """C19 - tree wiring and universe scoping (DESIGN 5/C19)."""
 from . import core_rules, tree_rules
+from .algo_equiv import check_equiv
+from .common import CORE
+
+NODE_INIT_REF = '''
+def ref(self, name, parent=None, children=None):
+    self.name = name
+    self.children = {}
+    self._lazy_children = {}
+    self._universe_tickers = []
+    self._childrenv = []
+    self._original_children_are_present = (children is not None) and (len(children) >= 1)
+    self._has_strat_children = False
+    self._strat_children = []
+    if parent is None:
+        self.parent = self
+        self.root = self
+        self.integer_positions = True
+    else:
+        self.parent = parent
+        parent._add_children([self], dc=False)
+    self._add_children(children, dc=True)
+    self.now = 0
+    self.root.stale = False
+    self._price = 0
+    self._value = 0
+    self._notl_value = 0
+    self._weight = 0
+    self._capital = 0
+    self._issec = False
+    self._fixed_income = False
+    self._bidoffer_set = False
+    self._bidoffer_paid = 0
+'''
+
+STRATEGY_INIT_REF = '''
+def ref(self, name, algos=None, children=None, parent=None):
+    super(Strategy, self).__init__(name, children=children, parent=parent)
+    if algos is None:
+        algos = []
+    self.stack = AlgoStack(*algos)
+    self.temp = {}
+    self.perm = {}
+'''
+
+FULL_NAME_REF = '''
+def ref(self):
+    if self.parent == self:
+        return self.name
+    else:
+        return "%s>%s" % (self.parent.full_name, self.name)
+'''
 
 
 def run(chk):
@@ -7,6 +58,11 @@ def run(chk):
                 "list move together, strategy children and tickers are registered; (R2) every push-down recursion (_set_root, use_integer_positions, set_commissions, members) reaches "
                 "all children with the same argument and settings are pushed at construction; (R3) a lazily named child is created, attached, set up and caught up before it is looked "
                 "up; (R4) the universe is the declared tickers present in the data (all when none declared) plus one column per sub-strategy, published on every update.")
+    check_equiv(chk, "C19.R1", CORE, "Node", "__init__", NODE_INIT_REF, "node-construction",
+                "a node without a parent is its own parent and root (integer positions by default); with a parent it is attached to it (not copied); declared children are attached as copies",
+                no_inline=("_add_children",))
+    check_equiv(chk, "C19.R1", CORE, "Strategy", "__init__", STRATEGY_INIT_REF, "strategy-construction", "a Strategy passes children and parent on, builds its stack and starts with empty temp and perm",
+                no_inline=("__init__",))
     tree_rules.add_children_rules(chk, "C19")
     core_rules.recursion_rules(chk, "C19", [("Node", "_set_root", "root", False), ("Node", "use_integer_positions", "integer_positions", False),
                                             ("StrategyBase", "set_commissions", "commission_fn", True)])
@@ -17,3 +73,4 @@ def run(chk):
     tree_rules.setup_from_parent_rules(chk, "C19")
     tree_rules.full_name_members(chk, "C19")
     core_rules.strategy_update(chk, "C19")
+    core_rules.security_setup_rules(chk, "C19")
